@@ -8,7 +8,7 @@ import re
 
 from ..effects import Effects
 from ..facts import calls_in
-from ..index import FuncInfo, norm, short
+from ..index import FuncInfo, norm, own_nodes, short
 
 PROPERTY = "C06"
 RULES = {
@@ -56,6 +56,8 @@ INFEASIBLE = [
     {"guard": "^GraphInitializers\\.(__setitem__|_check_item): key == ''", "via": 'Value\\.name\\.setter', "why": "the setter rejects the empty string for an initializer before anything is written (fix 5006b98)", "requires": ("value == ''",)},
     {"guard": '^GraphInitializers\\.(__setitem__|_check_item): not isinstance\\(key, str\\)', "via": 'Value\\.name\\.setter', "why": 'the new name is annotated str | None and None is rejected up front; a non-string name is a type-violating call (wrong Python types are outside the property, see NOT_DECIDED)', "requires": ()},
     {"guard": '^Value\\.name\\.setter: ', "via": 'GraphInitializers\\.(__setitem__|_check_item), .*Value\\.name\\.setter|Value\\.name\\.setter, .*GraphInitializers\\.(__setitem__|_check_item), .*Value\\.name\\.setter', "why": "__setitem__ names the value only when it has no name; re-entry of the setter from the setter's own re-keying sees name == key and returns early", "requires": ()},
+    {"guard": '^GraphInitializers\\.(__setitem__|_check_item): (not \\(not value\\.name\\) and key != value\\.name|value\\.name and key != value\\.name)', "via": 'GraphInitializers\\.update', "why": 'the commit writes `value.name = key` only for an unnamed value, and update rejects up front an unnamed value given under two different keys (fix b8d1d7f), so no key is ever compared with a name set for an earlier key', "requires": ('not \\$\\d+\\.name and .*id\\(\\$\\d+\\)',)},
+    {"guard": '^UserList\\.__setitem__@_GraphIO: `i` is an extended slice', "via": '_GraphIO\\.__setitem__', "why": 'the index branch runs under isinstance(i, SupportsIndex); the slice branch rejects an extended slice whose size differs from the assigned sequence before it releases or adopts anything (fix df0f9ca)', "requires": ('\\.step\\b.*len\\(',)},
     {"guard": '^UserDict\\.__delitem__@GraphInitializers: key of `del self\\.data\\[key\\]` absent', "via": 'Value\\.name\\.setter', "why": 'an initializer is stored under its current name (C01-R3d), which is the key popped', "requires": ()},
     {"guard": '^UserDict\\.__delitem__@GraphInitializers: key of `del self\\.data\\[key\\]` absent', "via": 'GraphInitializers\\.__delitem__', "why": '__delitem__ reads self.data[key] (KeyError before any write) before unsetting', "requires": ()},
     {"guard": '^Graph\\.(_set_node_graph_to_self_and_assign_names|_check_node_can_be_added): node\\.graph is not None and node\\.graph is not self', "via": '^onnx_ir\\._core:Graph\\.sort,', "why": 'each bucket of sorted nodes is keyed by node.graph and extended into that same graph (C12-R2)', "requires": ()},
@@ -106,6 +108,7 @@ def discharged(rej, used: dict) -> str | None:
     for i, ent in enumerate(INFEASIBLE):
         if re.search(ent["guard"], rej.key) and (ent["via"] is None or re.search(ent["via"], chain)):
             used[i] = used.get(i, 0) + 1
+            used.setdefault(("by", i), set()).update(rej.via)
             return ent["why"]
     return None
 
@@ -162,14 +165,109 @@ def prevalidated(ef: Effects, f: FuncInfo, c_event, rej) -> str | None:
             # the whole container is handed to a callee after each of its elements passed the checker
             ln = [n for n in cfg.node_of(l1) if n.kind == "iter"]
             if ln and cfg.dominates(ln[0], sn[0]):
+                if _interferes(ef, f, site, rej):
+                    continue
                 return f"every element of `{a2}` passed {pure[0].local} before the container is handed over"
         if l1 is not None and l2 is not None and l1 is not l2 and it1 == it2 and not any(
                 isinstance(n, (ast.Break, ast.Continue, ast.Return)) for n in ast.walk(l1)):
             # the whole validation loop precedes the commit loop
             ln = [n for n in cfg.node_of(l1) if n.kind == "iter"]
             if (ln and cfg.dominates(ln[0], sn[0])) or not isinstance(l1, ast.For):
+                if _interferes(ef, f, site, rej):
+                    continue
                 return f"every element of `{it1}` passed {pure[0].local} in an earlier loop"
     return None
+
+
+def _commit_writes(ef: Effects, g: FuncInfo, attr: str, depth=0, seen=None):
+    """[(value expression, function)] of the assignments to `<x>.attr` / `<x>._attr` reachable from g (3 levels)."""
+    seen = seen if seen is not None else set()
+    if g.key in seen or depth > 3 or isinstance(g.node, ast.Lambda):
+        return []
+    seen.add(g.key)
+    out = []
+    for n in own_nodes(g.node):
+        if isinstance(n, (ast.Assign, ast.AnnAssign, ast.AugAssign)) and getattr(n, "value", None) is not None:
+            for t in (n.targets if isinstance(n, ast.Assign) else [n.target]):
+                if isinstance(t, ast.Attribute) and t.attr.lstrip("_") == attr:
+                    out.append((n.value, g))
+                    # a property setter: follow it as well (the stored expression is its parameter)
+        if isinstance(n, ast.Call):
+            tg, _ = ef._call_targets(g, n)
+            for h in tg or ():
+                out += _commit_writes(ef, h, attr, depth + 1, seen)
+        # `x[k] = v` dispatches to a user-defined __setitem__
+        if isinstance(n, (ast.Assign, ast.AugAssign)):
+            for t in (n.targets if isinstance(n, ast.Assign) else [n.target]):
+                if isinstance(t, ast.Subscript):
+                    try:
+                        ts = ef.ty.type_of(g, t.value)
+                    except Exception:
+                        ts = ()
+                    for a in ts:
+                        if a[0] == "cls":
+                            for h in ef.ty._lookup_dyn(a[1], "__setitem__"):
+                                if isinstance(h, FuncInfo):
+                                    out += _commit_writes(ef, h, attr, depth + 1, seen)
+    return out
+
+
+def _invariant(e, g: FuncInfo) -> bool:
+    """Expression does not depend on the element being committed: constants and self-rooted chains only."""
+    selfname = g.params[0] if g.params else "self"
+    return all(x.id == selfname for x in ast.walk(e) if isinstance(x, ast.Name))
+
+
+def _interferes(ef: Effects, f: FuncInfo, site, rej) -> str | None:
+    """The validate-then-commit idiom checks every element against the state BEFORE the commit; the commit re-runs the
+    check per element against the state the earlier elements left behind (the same object can sit under two keys or
+    twice in a list). Harmless when every write of the commit to an attribute the guard reads stores an
+    element-independent value that the guard excludes (`x.graph is not self`); harmful when the stored value depends
+    on the element (`value.name = key`): the re-check of a later element can then reject."""
+    attrs = {a.lstrip("_") for a in re.findall(r"\.([A-Za-z_]\w*)", rej.cond)}
+    tg, _ = ef._call_targets(f, site)
+    bad = []
+    for a in sorted(attrs):
+        writes = [w for g in tg or () for w in _commit_writes(ef, g, a)]
+        if not writes:
+            continue
+        varying = [(e, g) for e, g in writes if not _invariant(e, g)]
+        excluded = re.search(r"\._?%s (is not|!=) (self\b[\w.]*)" % re.escape(a), rej.cond) is not None
+        if varying or not excluded:
+            e, g = (varying or writes)[0]
+            bad.append(f"{a} (stored as `{norm(e)}` in {g.local})")
+    return "; ".join(bad) if bad else None
+
+
+def _expanded_guard(f: FuncInfo, raise_node) -> str:
+    """Tests of the `if`s enclosing a raise, with every local replaced by the expression it is bound to (one level): a
+    validation written through a temporary (`step = i.step; if step not in (None, 1) …`) reads the same."""
+    if raise_node is None or isinstance(f.node, ast.Lambda):
+        return ""
+    binds: dict[str, str] = {}
+    for n in own_nodes(f.node):
+        if isinstance(n, ast.Assign) and len(n.targets) == 1 and isinstance(n.targets[0], ast.Name):
+            binds.setdefault(n.targets[0].id, norm(n.value))
+    out = []
+    p = getattr(raise_node, "_parent", None)
+    while p is not None and p is not f.node:
+        if isinstance(p, ast.If):
+            t = norm(p.test)
+            for name, val in binds.items():
+                t = re.sub(r"(?<![\w.])%s(?![\w(])" % re.escape(name), f"({val})", t)
+            out.append(t)
+        p = getattr(p, "_parent", None)
+    return " && ".join(out)
+
+
+def _under_test_of(node, name: str, stop) -> bool:
+    """node sits in the body of `if <name>:` (the bare truth test of that variable)."""
+    child, p = node, getattr(node, "_parent", None)
+    while p is not None and p is not stop:
+        if isinstance(p, ast.If) and isinstance(p.test, ast.Name) and p.test.id == name and any(child is b or any(child is x for x in ast.walk(b)) for b in p.body):
+            return True
+        child, p = p, getattr(p, "_parent", None)
+    return False
 
 
 def analyse_mutator(ef: Effects, f: FuncInfo, used: dict, own: frozenset = frozenset(), _memo=None, _depth=0):
@@ -185,11 +283,15 @@ def analyse_mutator(ef: Effects, f: FuncInfo, used: dict, own: frozenset = froze
             g = c.callee
             if g.key in own or _depth > 5:
                 continue
-            if g.key not in _memo:
-                _memo[g.key] = []
+            # a callee site guarded by `if <its **kwargs parameter>:` is dead when this call passes no keyword arguments
+            no_kw = isinstance(c.node, ast.Call) and not c.node.keywords and not any(isinstance(a, ast.Starred) for a in c.node.args)
+            kwname = g.node.args.kwarg.arg if no_kw and not isinstance(g.node, ast.Lambda) and g.node.args.kwarg else None
+            mk = (g.key, kwname)
+            if mk not in _memo:
+                _memo[mk] = []
                 sub = analyse_mutator(ef, g, used, own, _memo, _depth + 1)
-                _memo[g.key] = [r for _, _, u, _ in sub for r in u]
-            inner = _memo[g.key]
+                _memo[mk] = [r for _, c2, u, _ in sub for r in u if not (kwname and _under_test_of(c2.node, kwname, g.node))]
+            inner = _memo[mk]
             if not inner:
                 continue
             ent = by_site.setdefault((id(c.node), "late"), [m, c, {}, 0])
@@ -237,15 +339,13 @@ def run(ctx):
                 ctx.ob("R1", inst, True, how=f"all {ndis} rejection point(s) of the later site are infeasible there (R2 table)")
                 continue
             guards = sorted(r.key for r in undis)
-            # ranks of locals ($3) shift when an unrelated local is added to the function: hash the guards without them
-            h = hashlib.sha1("|".join(re.sub(r"\$\d+", "$", g) for g in guards).encode()).hexdigest()[:6]
             ctx.ob("R1", inst, False, how="forward may-analysis: M reaches C")
             ctx.violation(
                 "R1", f, c.node,
                 f"state is written ({m.desc}) and a later point on the same path can still reject: "
                 + "; ".join(guards[:4]) + (f" (+{len(guards) - 4} more)" if len(guards) > 4 else "")
                 + " — a rejected call leaves the earlier write in place",
-                construct=f"{short(m.node)[:70]} => {short(c.node)[:70]} [guards:{h}]",
+                construct=f"{short(m.node)[:70]} => {short(c.node)[:70]}",
                 path=[f"M at line {getattr(m.node, 'lineno', '?')}: {m.desc}", f"C at line {getattr(c.node, 'lineno', '?')}: {c.desc}"]
                 + [f"guard {g}" for g in guards[:8]],
             )
@@ -257,11 +357,11 @@ def run(ctx):
                   construct=f"stale entry {ent['guard']} via {ent['via']}", nontrivial=False)
         # a dominating validation in the mutator that makes the guard infeasible must still exist
         for need in ent["requires"]:
-            hit = False
-            for f in muts:
-                if ent["via"] and re.search(ent["via"], f.key + ","):
-                    hit = hit or any(re.search(need, r.cond) for r in ef.summary(f).rejs.values() if r.origin == f.key)
-            ctx.check("R2", f"table entry {i} requires validation `{need}`", hit, ctx.repo.module(CORE), None,
-                      f"the validation `{need}` that makes this guard infeasible is gone from the mutator",
-                      how="a rejection with that condition exists in the mutator itself", symbol="C06:INFEASIBLE",
+            # every mutator the entry was used for (and that the entry's `via` names) must still validate by itself
+            holders = [f for f in muts if ent["via"] and re.search(ent["via"], f.key + ",") and f.key in used.get(("by", i), ())]
+            missing = [f for f in holders if not any(
+                re.search(need, r.cond + " ## " + _expanded_guard(f, r.node)) for r in ef.summary(f).rejs.values() if r.origin == f.key)]
+            ctx.check("R2", f"table entry {i} requires validation `{need}`", bool(holders) and not missing, ctx.repo.module(CORE), None,
+                      f"the validation `{need}` that makes this guard infeasible is gone from {', '.join(f.local for f in missing) or 'the mutator'}",
+                      how="a rejection with that condition exists in each mutator the entry is used for", symbol="C06:INFEASIBLE",
                       construct=f"missing validation {need} for {ent['guard']}")
